@@ -67,7 +67,8 @@ def harness(c, cfg):
         nlv0 = br.net_liquidation_value(False)
         c.record("nlv0", nlv0)
     if cfg.get("novalue"):
-        pass
+        if prop == "C05" and op == "weights":
+            pass
     elif prop == "C01":
         c.prove_eq("C01:valuation=closed-form", nlv0, oracle_nlv(cash0, legs))
     else:
@@ -126,6 +127,23 @@ def harness(c, cfg):
             _c05_weights(c, br, legs, nlv1, "after-quote+valuation")
         c.reached("quote")
 
+    elif op == "weights":
+        # weights asked right after a quote move, before anything else values the account
+        if not (nlv0 > 0):
+            c.out_of_scope("ruin")
+        w = br.holdings_weights()
+        for leg in legs:
+            if leg.shape == "fresh":
+                continue
+            q = leg.q
+            expect = q * leg.liq(q) * leg.m / nlv0 if q != 0 else 0.0
+            c.prove_eq("C05:weights-first:weight_%s=q*liq*m/NLV" % leg.tag, w[leg.contract], expect, scale=(nlv0,))
+        nlv1 = br.net_liquidation_value(False)
+        c.prove_eq("C05:weights-first:same-nlv-afterwards", nlv1, nlv0)
+        _c05_after_valuation(c, br, legs, nlv1, "weights-first")
+        c.record("nlv1", nlv1)
+        c.reached("weights")
+
     elif op == "mtm":
         br.marking_to_market()
         if prop == "C05":
@@ -168,6 +186,9 @@ def configs_for(prop, tier):
         for shape in ("flat", "long", "short"):
             add(op="trade", kindA=kind, shapeA=shape, novalue=True)
         add(op="quote", kindA=kind, shapeA="held", novalue=True)
+        if prop == "C05":
+            add(op="weights", kindA=kind, shapeA="long", novalue=True)
+            add(op="weights", kindA=kind, shapeA="short", novalue=True)
     if tier == "thorough":
         for kind in ("spot", "margined"):
             for kb in ("spot", "margined"):
